@@ -139,6 +139,9 @@ func checkC02Sh(t *Toks) string {
 	for _, p := range txPerts(c.tx) {
 		kind, k, cls := parsePertName(p.name)
 		d := cloneSh(c)
+		if d.digest() != d0 { // warms whatever the object remembers, before it is edited in place
+			return fail(c.algo+".digest", "copy-digests-differently")
+		}
 		if !p.apply(d.tx) || !wfTx(d.tx) {
 			continue
 		}
